@@ -169,6 +169,75 @@ def run(binary, seed, tier, only=None, workers=None):
                 distinct_answers=sum(r["distinct_answers"] for r in results), wall_s=round(time.time() - t0, 1))
 
 
+# ---------------------------------------------------------------------------------------------------
+# C14 at L3: the multi-threaded REAL server under concurrent HTTP clients
+# ---------------------------------------------------------------------------------------------------
+def run_concurrent(binary, seed, tier, only=None):
+    """--threads=4 --useEuclideanDistance=true (no router stub: every answer is a function of the request alone), both cache
+    modes: the baseline answers come from a one-thread server asked sequentially; then 8 client threads send the same request
+    set, each in its own shuffled order, several rounds, to a 4-thread server; every response must equal the baseline.  The
+    handlers, the parameter factories, the geo filter and the worker threads' calculators exist only in the real process."""
+    import threading
+    t0 = time.time()
+    n = 4 if tier == "quick" else 24
+    root = os.path.join(build.WORK, "scratch", "c14-l3-%d-%s" % (seed, tier))
+    shutil.rmtree(root, ignore_errors=True)
+    os.makedirs(root, exist_ok=True)
+    fails, evals, rounds_total = [], 0, 0
+    for index in (range(n) if only is None else [only]):
+        spec = history_spec(seed + 77, tier, index * 2)          # even index: Euclidean layout and requests
+        ds, reqs = spec["ds"], spec["requests"]
+        cache = os.path.join(root, "h%03d" % index, "cache")
+        os.makedirs(cache)
+        l3.write_cache(ds, cache)
+        cache_all = index % 2 == 1
+        stub = l3.OsrmStub()
+        extra = ("--useEuclideanDistance=true",)
+        base = dict(level="L3 concurrent clients on the real multi-threaded binary (C14)", seed=seed, tier=tier, history=index, cache_all=cache_all,
+                    dataset=ds.text(), requests=[r["path"] for r in reqs], binary=binary)
+        one = multi = None
+        try:
+            one = l3.Server(binary, cache, stub.port, threads=1, cache_all=cache_all, extra_args=extra)
+            want = [l3refresh.ask(one, stub, r) for r in reqs]
+            one.stop(); one = None
+            multi = l3.Server(binary, cache, stub.port, threads=4, cache_all=cache_all, extra_args=extra)
+            lock = threading.Lock()
+            bad = []
+
+            def client(k):
+                rng = gen.Rng(seed * 1000003 + index * 131 + k)
+                for _ in range(2 if tier == "quick" else 4):
+                    for i in rng.sample(list(range(len(reqs))), len(reqs)):
+                        a = l3refresh.ask(multi, stub, reqs[i])
+                        if a != want[i]:
+                            with lock:
+                                bad.append((i, a))
+            ths = [threading.Thread(target=client, args=(k,)) for k in range(8)]
+            for t in ths:
+                t.start()
+            for t in ths:
+                t.join()
+            rounds_total += 1
+            evals += 8 * (2 if tier == "quick" else 4) * len(reqs)
+            if not multi.alive():
+                fails.append(("the multi-threaded server died under concurrent requests", dict(base, why="server died", exit_status=multi.exit_status(), log=multi.crash_report())))
+            for (i, a) in bad[:20]:
+                fails.append(("a request answered concurrently gets another response than on an idle server",
+                              dict(base, why="concurrent response differs", request_number=i, request=reqs[i]["path"],
+                                   answers=[dict(history="idle", position=0, answer=want[i][:600]), dict(history="concurrent", position=0, answer=a[:600])])))
+        except Exception as e:
+            import traceback
+            fails.append(("concurrent history could not be run: %s" % str(e)[:300], dict(base, why="harness", traceback=traceback.format_exc()[-1500:])))
+        finally:
+            for sv in (one, multi):
+                if sv is not None:
+                    sv.stop()
+            stub.close()
+    if not fails:
+        shutil.rmtree(root, ignore_errors=True)
+    return dict(evaluations=evals, histories=rounds_total, fails=fails, wall_s=round(time.time() - t0, 1))
+
+
 def write_replay(pid, why, rd):
     import checklib as cl
     os.makedirs(os.path.join(cl.REPLAYS, pid), exist_ok=True)
@@ -182,6 +251,8 @@ def write_replay(pid, why, rd):
 def replay(binary, path):
     with open(path) as f:
         rd = json.load(f)
+    if "concurrent" in rd.get("level", ""):
+        return run_concurrent(binary, int(rd["seed"]), rd["tier"], only=int(rd["history"]))
     return run(binary, int(rd["seed"]), rd["tier"], only=int(rd["history"]))
 
 
